@@ -318,9 +318,11 @@ class ExcelModel:
                 not isinstance(d['function'], InvRangesAssembler) and
                 not d['function'].missing for o in d['outputs']
             )
-            # Cells of a model restored without `cells` (copy, pickle).
-            pred, dfl = self.dsp.dmap.pred, self.dsp.default_values
-            stack.difference_update({k for k in stack if k in dfl or pred[k]})
+            if not self.cells:  # Model restored without `cells` (copy, pickle).
+                pred, dfl = self.dsp.dmap.pred, self.dsp.default_values
+                stack.difference_update(
+                    {k for k in stack if k in dfl or pred[k]}
+                )
         stack = sorted(stack)
         sheet_limits = {}
         while stack:
